@@ -606,19 +606,39 @@ func (c *Ctx) TraceCheck(f *Family, cases []json.RawMessage) {
 				idx = j
 			}
 		}
-		confirm := []json.RawMessage{cases[idx]}
-		for r := 0; r < f.Retries; r++ {
-			confirm = append(confirm, cases[idx])
+		// confirm on the real code again, alone: the shortest case first, then up to 6 others of the signature (a case
+		// may depend on state an earlier case left in a process-wide pool; Retries runs copies of it back to back)
+		cands := []int{idx}
+		for _, j := range bySig[s] {
+			if j != idx && len(cands) < 7 {
+				cands = append(cands, j)
+			}
 		}
-		again, err := c.validate(f, confirm, 1)
-		if err != nil {
-			c.Infra("re-validation failed: %v", err)
+		confirmed, failed := -1, false
+		for _, j := range cands {
+			confirm := []json.RawMessage{cases[j]}
+			for r := 0; r < f.Retries; r++ {
+				confirm = append(confirm, cases[j])
+			}
+			again, err := c.validate(f, confirm, 1)
+			if err != nil {
+				c.Infra("re-validation failed: %v", err)
+				failed = true
+				break
+			}
+			if len(again.mismatch) > 0 {
+				confirmed = j
+				break
+			}
+		}
+		if failed {
 			continue
 		}
-		if len(again.mismatch) == 0 {
+		if confirmed < 0 {
 			c.Infra("rejected case did not reproduce (family %s, sig %s): %s", f.Name, s, string(cases[idx]))
 			continue
 		}
+		idx = confirmed
 		c.report(f, s, cases[idx], out.mismatch[idx], len(bySig[s]))
 	}
 }
